@@ -251,3 +251,27 @@ def constraint_web_blocks(g, n, nlines=14):
                 acts.append(eval_action(w, tag={"k": "line", "line": line_json(line)}))
         blocks.append((cfg, acts))
     return blocks
+
+
+WIDE_KINDS = ["u64", "i64", "u32", "u16", "i16"]
+
+
+def wide_blocks(g, n, nlines=5, nspell=4, mutants=False):
+    """Handlers whose destinations are integral types other than int (std::uint64_t, std::int64_t, unsigned int, unsigned short,
+    short): values at and around the limits of each type and of the narrower ones, in several spellings; with mutants=True
+    also the rule-breaking edits of every line (values just outside the range of the type among them)."""
+    blocks = []
+    for _ in range(n):
+        cfg = g.cfg(nargs=g.r.randint(2, 6), kinds=WIDE_KINDS + ["flag", "int", "u64"], constraints=True, allow_pos=False)
+        acts = []
+        for _ in range(nlines):
+            line = gen_valid(g, cfg)
+            if line is None:
+                continue
+            for _ in range(nspell):
+                acts.append(eval_action(g.spell_line(cfg, line), tag={"k": "line", "line": line_json(line)}))
+            if mutants:
+                for kind, words in arggen.mutations(g, cfg, line):
+                    acts.append(eval_action(words, tag={"k": "mut", "m": kind}))
+        blocks.append((cfg, acts))
+    return blocks
